@@ -688,9 +688,9 @@ def _modifier_to_expr(parsed_pattern) -> str:
         elif cond.operator == 'month':
             conditions.append(f"month == {cond.month}")
         elif cond.operator == 'relative':
-            # Relative dates can't be easily converted - use approximation
-            # Note: This isn't perfect, but it's a reasonable migration
-            conditions.append(f"# Note: was last{cond.relative_days}days")
+            # Relative dates have no equivalent in the expression language: the
+            # condition is dropped (a "# Note" here made the expression unparsable)
+            pass
 
     return " and ".join(conditions)
 
